@@ -382,11 +382,17 @@ GEN_CALL = {
     "c03_one_item": "step_one_item(%d, %d)",
 }
 
+# Cost grows steeply with the width of the active range (number of symbolic contexts): width 5 ~ 350 s,
+# width >= 16 does not finish (memory).  The thorough tier therefore attempts the ranges of width <= GEN_MAX_WIDTH
+# (220 of the 496); wider ranges are registered but not scheduled, and are listed as outside the claim.
+import os as _os
+GEN_MAX_WIDTH = int(_os.environ.get("VERIF_GEN_MAXWIDTH", "8"))
 for (st, en) in ALL_PAIRS:
-    gen_q("c01_step", st, en, "C01", ("quick", "thorough"), (900, 1500), 300)
-    gen_q("c01_digest_trunc", st, en, "C01", ("quick", "thorough"), (900, 1800), 300)
-    gen_q("c01_digest_long", st, en, "C01", ("quick", "thorough"), (900, 1800), 300)
-for (st, en) in [(0, 1), (0, 2), (2, 5), (0, 31), (29, 31), (30, 31), (7, 8), (12, 20)]:
+    tiers = ("quick", "thorough") if en - st <= GEN_MAX_WIDTH else ()
+    gen_q("c01_step", st, en, "C01", tiers, (900, 2400), 100 + 60 * (en - st))
+    gen_q("c01_digest_trunc", st, en, "C01", tiers, (900, 2400), 200 + 60 * (en - st))
+    gen_q("c01_digest_long", st, en, "C01", tiers, (900, 2400), 200 + 60 * (en - st))
+for (st, en) in [(0, 1), (0, 2), (2, 5), (26, 31), (29, 31), (30, 31), (7, 8), (12, 18)]:
     gen_q("c03_one_item", st, en, "C03", ("quick", "thorough") if (st, en) in ((0, 2), (2, 5), (29, 31)) else ("thorough",),
           (900, 2400), 300)
     for kind in ("c03_two_slice", "c03_two_iter", "c03_two_addslice", "c03_two_addarray"):
@@ -397,8 +403,11 @@ PROP_META["C01"] = {
                  "invariant generator state, one real update / finalize, simulation relation re-established; one "
                  "query per concrete active block-size range (496 ranges); plus full-domain trigger lemma and "
                  "bounded BMC from the public API",
-    "exhaustive_thorough": True,
-    "assumptions": ["see per-query assumptions (inv, ghost size, opaque rolling hash, S*)"],
+    "exhaustive_thorough": False,
+    "assumptions": ["see per-query assumptions (inv, ghost size, opaque rolling hash, S*)",
+                    "active ranges wider than 8 levels (276 of the 496) are not attempted: pre-states with that many "
+                    "symbolic contexts exhaust memory; transitions INTO such ranges are covered (the post-state range is "
+                    "symbolic), steps FROM them are outside the claim"],
 }
 PROP_META["C03"] = {
     "technique": "Kani/CBMC inductive step per update form (slice / iterator / += forms, size counter running "
@@ -461,7 +470,7 @@ K("c13_finalize_limits", "C13", M_GEN, fn="c12_finalize_errors", cfg="release", 
 K("c13_u64_ilog2_full", "C13", M_UTILS, fn="c20_u64_ilog2_full", shape="full domain", bound="none: all non-zero u64",
   enc=["utils::u64_ilog2"], cap=(120, 300), cost=5)
 # C13 re-uses the C01 inductive queries for the ranges reaching index 30 / the last-piece hash
-for (st, en) in [(0, 31), (29, 31), (30, 31), (15, 31)]:
+for (st, en) in [(26, 31), (29, 31), (30, 31), (24, 31)]:
     for kind in ("c01_step", "c01_digest_trunc", "c01_digest_long"):
         quick = (st, en) in ((29, 31), (30, 31)) and kind != "c01_digest_long"
         q = gen_q(kind, st, en, "C13", ("quick", "thorough") if quick else ("thorough",), (900, 1800), 300)
@@ -532,7 +541,7 @@ def select(prop, tier, seed, qs):
     others = [q for q in qs if q not in fam]
     import random
     rnd = random.Random(seed)
-    rest = [p for p in ALL_PAIRS if p not in BOUNDARY_PAIRS]
+    rest = [p for p in ALL_PAIRS if p not in BOUNDARY_PAIRS and p[1] - p[0] <= 5]
     pick = set(BOUNDARY_PAIRS) | set(rnd.sample(rest, QUICK_ROTATING))
     long_only = {(0, 2), (30, 31)}
     return others + [q for q in fam if (q.gen["st"], q.gen["en"]) in pick
@@ -795,7 +804,7 @@ for (a, b) in NEAR_PAIRS + FAR_PAIRS:
            "score_strings_internal", "score_strings_raw_internal", "is_equiv_except_block_size", "block_size::compare_sizes"],
       assumptions=[ASSUME_SYM, "both hashes valid and normalized (spec_valid)"])
     K("c10_c_s_m8_%d_%d" % (a, b), "C10", M_CMP, cfg="release",
-      tiers=("quick", "thorough") if (a, b) in C02_QUICK else ("thorough",), cap=(900, 2400), cost=500, mem=12,
+      tiers=("quick", "thorough") if ((a, b) in C02_QUICK and a != b) else ("thorough",), cap=(900, 3000), cost=500, mem=12,
       unwindset=C02_RULES, shape="BMC",
       bound="score > 0 <=> equal or candidate; candidate <=> index windows intersect; block sizes (3<<%d, 3<<%d), "
             "block hashes <= 8 symbols" % (a, b),
@@ -1092,3 +1101,9 @@ K("c11_dual_parser_valid_tail", "C11", M_DUAL, fn="c04_dual_capacity_bh2_short_t
   unwindset=alg_rules(n_text=42, n_verify=42) + dual_rules(n_in=42, n_rle=17), shape="BMC",
   bound="dual parser on the capacity class '3::' + 29 run-free symbols + <= 8 free bytes: Ok => is_valid, never panics",
   enc=["FuzzyHashDualData::from_bytes_with_last_index"])
+
+for (a, b) in [(3, 3), (30, 30)]:
+    K("c10_c_s_m7_%d_%d" % (a, b), "C10", M_CMP, cfg="release", cap=(900, 2400), cost=500, mem=12, unwindset=C02_RULES, shape="BMC",
+      bound="score > 0 <=> equal or candidate; candidate <=> index windows intersect; equal block sizes (3<<%d), block hashes <= 7 symbols" % a,
+      enc=["FuzzyHashCompareTarget::is_comparison_candidate(_near_eq)", "compare", "block_hash_{1,2}_index_windows"],
+      assumptions=[ASSUME_SYM, "both hashes valid and normalized (spec_valid)"])
